@@ -238,7 +238,7 @@ fn preload(sc: &mut Scenario, initial: usize) {
 
 /// late: list of item codes: 0 metadata, 1 eof, 2 prompt-nak, 3 prompt-keepalive, 10+i data segment i
 pub fn build_puppet(with_file: bool, null_checksum: bool, reqs: &[ReqSpec], late: &[u32], ack_fin: bool, nak: NakSpec, seed: u64) -> C04Case {
-    build_puppet_timed(with_file, null_checksum, reqs, late, None, ack_fin, None, nak, seed)
+    build_puppet_timed(with_file, null_checksum, reqs, late, None, ack_fin, None, nak, seed, false)
 }
 
 /// as `build_puppet`, with an explicit delivery time for every late PDU and for the ACK(Finished)
@@ -253,13 +253,15 @@ pub fn build_puppet_timed(
     ack_at: Option<u64>,
     nak: NakSpec,
     seed: u64,
+    unack_closure: bool,
 ) -> C04Case {
-    let cfg = CfgSpec { seg: 32, max_count: 3, ti: 30, ta: 2, tn: 2, crc: seed % 3 == 0, closure: false, null_checksum, nak, handlers: vec![] };
+    let cfg = CfgSpec { seg: 32, max_count: 3, ti: 30, ta: 2, tn: 2, crc: seed % 3 == 0, closure: unack_closure, null_checksum, nak, handlers: vec![] };
     let mut sc = Scenario::two_entities(cfg.clone(), cfg);
     sc.entities[0].present = false;
     sc.seed = seed;
     let size = 80u32;
-    let mut put = simple_put(size, ContentClass::Random, seed ^ 0xC04, false);
+    // unacknowledged mode with closure requested: the receiver finalises on the EOF, sends Finished and waits for its ACK
+    let mut put = simple_put(size, ContentClass::Random, seed ^ 0xC04, unack_closure);
     put.dst_name = "delivered.bin".into();
     put.requests = reqs.to_vec();
     if !with_file {
@@ -271,9 +273,9 @@ pub fn build_puppet_timed(
     let pup = Pup::for_put(&sc, 0);
     let options: Vec<MetadataTLV> = reqs.iter().map(|r| MetadataTLV::FileStoreRequest(r.to_request())).collect();
     let meta = if with_file {
-        pup.metadata(size as u64, "src.bin", "delivered.bin", false, null_checksum, options)
+        pup.metadata(size as u64, "src.bin", "delivered.bin", unack_closure, null_checksum, options)
     } else {
-        pup.metadata(0, "", "", false, null_checksum, options)
+        pup.metadata(0, "", "", unack_closure, null_checksum, options)
     };
     let nseg = content.len().div_ceil(32);
     let data = |i: usize| pup.data((i * 32) as u64, &content[i * 32..std::cmp::min(content.len(), (i + 1) * 32)]);
@@ -385,6 +387,37 @@ plus the same handshake losses with one bit of the file data flipped on a link w
     }
     ctx.section = "puppet-late-pdus".into();
     ctx.drive_list(&part, cases, ctx.tier == Tier::Thorough);
+    // the same stragglers against a receiver in unacknowledged mode with closure requested: it finalises on the EOF, sends
+    // Finished and waits for the ACK (retransmitting Finished) - a window in which duplicates of every earlier PDU can arrive
+    let mut cases = vec![];
+    for with_file in [true, false] {
+        for null in [false, true] {
+            for reqs in &reqsets {
+                if !with_file && reqs.is_empty() {
+                    continue;
+                }
+                let mut items: Vec<u32> = vec![0, 1, 2, 3];
+                if with_file {
+                    items.extend([10, 11, 12]);
+                }
+                let mut lates: Vec<Vec<u32>> = vec![vec![]];
+                for a in &items {
+                    lates.push(vec![*a]);
+                    for b in &items {
+                        lates.push(vec![*a, *b]);
+                    }
+                }
+                for late in &lates {
+                    for ack in [true, false] {
+                        k += 1;
+                        cases.push(build_puppet_timed(with_file, null, reqs, late, None, ack, None, NakSpec { immediate: false, delay_ms: 0 }, mix(ctx.seed, k), true));
+                    }
+                }
+            }
+        }
+    }
+    ctx.section = "puppet-late-pdus-unack-closure".into();
+    ctx.drive_list(&part, cases, true);
     let mut cases = vec![];
     for size in [0u32, 40, 100] {
         for null in [false, true] {
@@ -437,7 +470,9 @@ plus the same handshake losses with one bit of the file data flipped on a link w
             _ => 100 + rng.below(6500),
         };
         let nak = if rng.chance(1, 2) { NakSpec { immediate: false, delay_ms: 0 } } else { NakSpec { immediate: true, delay_ms: *rng.pick(&[0u64, 50]) } };
-        let mut c = build_puppet_timed(with_file, null, &reqs, &late, Some(&times), ack_fin, Some(ack_at), nak, rng.next());
+        let seed_c = rng.next();
+        let unack_closure = rng.chance(1, 4);
+        let mut c = build_puppet_timed(with_file, null, &reqs, &late, Some(&times), ack_fin, Some(ack_at), nak, seed_c, unack_closure);
         // one in four: the receiver is configured to ignore the positive-ACK limit fault (and possibly the inactivity fault) and
         // the ACK(Finished) never comes: the limit is reached, the fault ignored, the wait goes on - the delivery stays what it was
         if rng.chance(1, 4) {
